@@ -22,19 +22,20 @@ const modPath = "github.com/Oudwins/zog"
 // /repo, their SSA form (generic origins, not instantiations), and a VTA call
 // graph.
 type Prog struct {
-	modCGMemo *modCG
-	Repo      string
-	GOARCH    string
-	Fset      *token.FileSet
-	Pkgs      []*packages.Package
-	PkgByID   map[string]*packages.Package
-	SSA       *ssa.Program
-	SSAPkgs   map[string]*ssa.Package // import path -> ssa package (module only)
-	Funcs     []*ssa.Function         // module functions: named, anonymous, init; generic origins only
-	ByName    map[string]*ssa.Function
-	AllFuncs  map[*ssa.Function]bool // every function incl. stdlib + instantiations (for call graph)
-	CG        *callgraph.Graph
-	Sizes     types.Sizes
+	helperDispMemo map[*ssa.Function]bool
+	modCGMemo      *modCG
+	Repo           string
+	GOARCH         string
+	Fset           *token.FileSet
+	Pkgs           []*packages.Package
+	PkgByID        map[string]*packages.Package
+	SSA            *ssa.Program
+	SSAPkgs        map[string]*ssa.Package // import path -> ssa package (module only)
+	Funcs          []*ssa.Function         // module functions: named, anonymous, init; generic origins only
+	ByName         map[string]*ssa.Function
+	AllFuncs       map[*ssa.Function]bool // every function incl. stdlib + instantiations (for call graph)
+	CG             *callgraph.Graph
+	Sizes          types.Sizes
 
 	roles *Roles
 
